@@ -21,7 +21,8 @@ func init() {
 		Level: "fault_enumeration",
 		Rule: "case = one restart of a seeded lifecycle history on a store with a few-KiB fraction size, a retention limit of 4..8 fractions and a 3 ms maintenance loop: rounds of [restart -> verify everything -> ingest 20..60 bulks (dozens of rotations, background seals, retention deletions) -> " +
 			"crash at the k-th hit of a lifecycle hook (between the two file creations of a new active fraction, rotation, each rename/remove of sealed and active deletion, retention shift, .frac-cache temp written/renamed, seal publication, release) or clean exit], " +
-			"each crash followed by a power-loss variant (unsynced tails of .docs/.meta truncated; .frac-cache left, truncated to a seeded length, or deleted). " +
+			"each crash followed by a power-loss variant (unsynced tails of .docs/.meta truncated; .frac-cache left, truncated to a seeded length, or deleted); " +
+			"every third history has slow seals (seeded sleeps up to 40 ms at the sealer's hooks, or the k-th seal parked for the rest of the process lifetime and the process killed at the end of ingestion), so that retention shifts out fractions that are still being sealed. " +
 			"oracle per restart: the store comes up; every bulk is wholly served or wholly gone, byte-identical; bulks seen in one fraction share their fate; the acknowledged bulks still served form a suffix of the ingestion order (oldest-first retention); " +
 			"a bulk seen gone never reappears; online: every fraction list sampled during the run is a suffix of the creation order. non-trivial = the restart follows a crash and some acknowledged data had been retired; distinct = (crash point, hit class, tear class, round)",
 		Assumptions: []string{
